@@ -29,3 +29,24 @@ Fixpoint law_hist (i : Z) (d : dict) (h : list (op * obs)) : list Z :=
 (* Prop reading of clause 1 *)
 Definition Neutral (before : dict) (ob : obs) : Prop :=
   forall a k, In (a, k) (o_delta ob) -> k = occ (o_dict ob) a - occ before a.
+
+(* ----- native stream: the C fast validators, containers, delegates and special trait types are
+   exercised with fresh (mortal) objects — instances, run-time-built strings, large integers.  There is
+   no Gallina model of those paths (their value semantics is C01/C03's business); the law is evaluated
+   on the implementation's observation only: per step, for every measured object, the change of its
+   reference count equals the change of the number of references the reachable instance state holds to
+   it (slots of the instance dicts and of the tuples / lists / dicts / sets stored there, counted by the
+   driver before and after the step). *)
+Definition nstep := (bool * list (atom * Z * Z * Z))%type.   (* crashed, (object, delta, held before, held after) *)
+
+Definition native_step_codes (s : nstep) : list Z :=
+  let '(crashed, rows) := s in
+  chk 1 (forallb (fun r => let '(a, delta, hb, ha) := r in delta =? ha - hb) rows)
+  ++ chk 2 (negb crashed).
+
+Fixpoint native_hist (i : Z) (h : list nstep) : list Z :=
+  match h with
+  | [] => []
+  | s :: r => map (fun c => 100 * i + c) (native_step_codes s) ++ native_hist (i + 1) r
+  end.
+Definition native_law_codes (h : list nstep) : list Z := native_hist 0 h.
